@@ -53,7 +53,7 @@ func (f *Decf) Call(s *slip.Scope, args slip.List, depth int) (result slip.Objec
 		delta = args[1]
 		switch td := delta.(type) {
 		case slip.Fixnum:
-			delta = -td
+			delta = subtractFixnums(0, td)
 		case slip.SingleFloat:
 			delta = -td
 		case slip.DoubleFloat:
